@@ -4,9 +4,22 @@ specs: Dset.tla, ConnPix.tla (dense raster scan), SparseCP.tla (sparse walk + sp
 Mode A: every image TLC enumerates is run through the real kernels and Python wrappers; labels must equal the
         model's labels element for element (normal build and ASan/UBSan build).
 Mode C: large / adversarial images are labelled by the real kernels, the recorder adds a spanning forest and
-        TLC validates the certificate against TraceCC.
+        TLC validates the certificate against TraceCC (which decides "strictly above" itself, on the exact integer
+        keys of the float32 values and of the float32 threshold).  Families (counted in the evidence notes):
+        * label-table growth WITH unions afterwards (one growth > 16384 and two growths > 32768 provisional labels in
+          quick; the number of dset_new calls, the growth site and the unions that follow it are computed from the
+          image alone, scipy.ndimage supplying the component counts);
+        * value classes: thresholds that are not float32 numbers, pixels one float32 above / below / equal to the
+          rounded threshold, +-inf, subnormals and signed zeros around 0;
+        * call shapes judged by equality with a TraceCC-accepted array (the model is covariant under them - same kernel,
+          same float32 values): cImageD11.connectedpixels under an explicit thread sweep (set through
+          cimaged11_omp_set_num_threads, read back, restored; more threads than rows included), splat scratch sized
+          for a larger frame, labelimage.labelpeaks for every input dtype / layout, sparseframe.sparse_connected_pixels
+          with lima_segmenter.clean's array names next to a decoy array, SparseScan.cplabel(threshold, countall) on
+          multi-frame scan files made of the certificate images (empty and all-background frames between them).
+        NaN pixels: the statement is silent; what the kernels do is recorded under notes["observations"] only.
 """
-import os, sys, json, subprocess, time, io, contextlib
+import os, sys, json, subprocess, time, io, contextlib, collections
 import numpy as np
 import common
 import c11_replay
@@ -15,15 +28,19 @@ PROP = "C11"
 INV = ["InBounds", "DsInv", "Defined", "Background", "Partition", "Numbering", "Emit"]
 
 
-def dense_cfg(ns, nf, emit=True):
-    return common.write_cfg(os.path.join(common.scratch(), "connpix_%dx%d.cfg" % (ns, nf)),
-                            constants={"NS": ns, "NF": nf, "CAP": 4, "CONS": "{TRUE, FALSE}", "EmitOn": emit},
+def dense_cfg(ns, nf, emit=True, rowpar=False):
+    return common.write_cfg(os.path.join(common.scratch(), "connpix_%dx%d%s.cfg" % (ns, nf, "_rowpar" if rowpar else "")),
+                            constants={"NS": ns, "NF": nf, "CAP": 4, "CONS": "{TRUE, FALSE}", "EmitOn": emit,
+                                       "ROWPAR": rowpar},
                             invariants=INV)
 
 
-def sparse_cfg(ns, nf, algs='{"sparse", "splat"}', bug=False, emit=True, name=""):
+def sparse_cfg(ns, nf, algs='{"sparse", "splat"}', bug=False, emit=True, name="", zp=(0, 0)):
+    if zp != (0, 0):
+        name += "_zp%d%d" % zp
     return common.write_cfg(os.path.join(common.scratch(), "sparsecp_%dx%d%s.cfg" % (ns, nf, name)),
-                            constants={"NS": ns, "NF": nf, "CAP": 4, "ALGS": algs, "BUG_SPLAT": bug, "EmitOn": emit},
+                            constants={"NS": ns, "NF": nf, "CAP": 4, "ALGS": algs, "BUG_SPLAT": bug, "EmitOn": emit,
+                                       "ZPI": zp[0], "ZPJ": zp[1]},
                             invariants=["NoPoisonRead"] + INV)
 
 
@@ -57,11 +74,37 @@ def cases_from_sparse(res):
         routes = ["sparse", "sparseframe", "dense", "labelimage"] if r["alg"] == "sparse" else ["splat"]
         out.append({"ns": r["ns"], "nf": r["nf"], "con8": 1, "tern": r["tern"], "labels_dense": dense,
                     "np": r["np"], "src": "SparseCP/" + r["alg"], "routes": routes})
+        if r.get("zpi") or r.get("zpj"):
+            out[-1].update(zpi=r["zpi"], zpj=r["zpj"], src="SparseCP/%s/Z+%d+%d" % (r["alg"], r["zpi"], r["zpj"]))
     return out, bad
 
 
 def replay_inprocess(chk, cases, mods):
+    """every case through every route; the OpenMP thread count is set explicitly (1, 2, 5, the host's default, changing every
+    512 cases), read back and restored"""
+    cImageD11 = mods[0]
+    before = cImageD11.cimaged11_omp_get_max_threads()
+    plan = [1, 2, 5, before] if before > 0 else [0]
+    used = collections.OrderedDict()
+    try:
+        _replay_blocks(chk, cases, mods, plan, used)
+    finally:
+        if before > 0:
+            cImageD11.cimaged11_omp_set_num_threads(before)
+    chk.notes["small_case_threads"] = used
+
+
+def _replay_blocks(chk, cases, mods, plan, used):
+    cImageD11 = mods[0]
+    block, nt = -1, 0
     for idx, case in enumerate(cases):
+        b = (idx // 512) % len(plan)            # the count changes every 512 cases: every shape meets every count
+        if b != block:
+            block = b
+            if plan[b] > 0:
+                cImageD11.cimaged11_omp_set_num_threads(plan[b])
+            nt = cImageD11.cimaged11_omp_get_max_threads()
+        used[str(nt)] = used.get(str(nt), 0) + 1
         key = (case["ns"], case["nf"], case["con8"], tuple(case["tern"]), case.get("src"))
         try:
             probs = c11_replay.run_case(case, mods, idx)
@@ -115,6 +158,11 @@ def replay_asan(chk, cases, tag, prop=PROP):
 # ---------------------------------------------------------------------------------------------
 # large cases + certificates
 
+GROW1 = 16382        # the dset_new call that makes the table of 16384 grow (current + 3 > length)
+GROW2 = 32766        # ... and the doubled table grow again
+THREADS = (1, 2, 3, 7, 16, 61)
+
+
 def big_images(tier, rng):
     """(name, bool image, con8) adversarial / large shapes"""
     out = []
@@ -151,7 +199,93 @@ def big_images(tier, rng):
         add("realloc_checker_512", (yy + xx) % 2 == 0, (0, 1))
         add("realloc_dots_512", (yy % 2 == 0) & (xx % 2 == 0), (1,))
         add("realloc_vs_512", ((yy % 2 == 0) & (xx % 2 == 0)) | (yy == 511), (1,))     # 65k labels all united at the end
+    for name, im, cons in growth_images(tier):
+        add(name, im, cons)
     return out
+
+
+def growth_images(tier):
+    """label-table growth followed by unions (every tier): [(name, image, connectivities)]
+    dots = isolated pixels under 8-connectivity, checker = isolated under 4-connectivity: every one is a dset_new;
+    full rows / a full first column / a full last row unite them - before, across and after each growth"""
+    out = []
+    def dots(a, b, xoff=0):
+        yy, xx = np.mgrid[0:a, 0:b]
+        return (yy % 2 == 0) & (xx % 2 == xoff), yy, xx
+    # one growth, then ONE sweep of unions at the very end (17161 sets united by the last row)
+    im, yy, xx = dots(262, 262)
+    out.append(("grow1_dots_lastrow_262", im | (yy == 261), (1, 0)))
+    # one growth in mid-image of a comb: unions before, between old and new labels, among new labels
+    im, yy, xx = dots(280, 280)
+    out.append(("grow1_dots_comb_280", im | (yy % 24 == 23) | (xx == 0) | (yy == 279), (1,)))
+    # two growths (> 32768 provisional labels) with unions after each
+    yy, xx = np.mgrid[0:280, 0:280]
+    out.append(("grow2_checker_comb_280", ((yy + xx) % 2 == 0) | (yy % 40 == 39) | (xx == 0) | (yy == 279), (0,)))
+    im, yy, xx = dots(384, 384)
+    out.append(("grow2_dots_comb_384", im | (yy % 48 == 47) | (xx == 0) | (yy == 383), (1,)))
+    # the growing dset_new call placed at each site of the dense scan (row start, row middle, row end): 4-connected
+    # checkerboard whose first rows are thinned until the 16382nd new label falls where wanted; last row unites
+    yy, xx = np.mgrid[0:186, 0:184]
+    base = ((yy + xx) % 2 == 0) | (yy == 185)
+    pos0 = np.flatnonzero(provisional(base, 0))
+    want = {"rowstart": lambda c: c == 0, "mid": lambda c: 0 < c < 183, "rowend": lambda c: c == 183}
+    for site, ok in sorted(want.items()):
+        for r in range(0, 200):
+            im = base.copy()
+            im.ravel()[pos0[:r]] = False             # (isolated pixels: removing some does not change the others)
+            pos = np.flatnonzero(provisional(im, 0))
+            if len(pos) >= GROW1 + 200 and ok(pos[GROW1 - 1] % 184):
+                out.append(("grow1_site_%s_186x184" % site, im, (0,)))
+                break
+        else:
+            raise common.MachineryError("growth_images: no alignment for site %s" % site)
+    if tier != "quick":
+        yy, xx = np.mgrid[0:512, 0:512]
+        out.append(("grow4_checker_comb_512", ((yy + xx) % 2 == 0) | (yy % 64 == 63) | (xx == 0) | (yy == 511), (0,)))
+        out.append(("grow3_dots_comb_512", ((yy % 2 == 0) & (xx % 2 == 0)) | (yy % 64 == 63) | (xx == 0) | (yy == 511), (1,)))
+    return out
+
+
+def provisional(im, con8):
+    """pixels at which the raster scan calls dset_new: above, with no above pixel among the neighbours already seen
+    (W, N and, 8-connected, NW, NE)"""
+    a = np.asarray(im, bool)
+    prev = np.zeros_like(a)
+    prev[:, 1:] |= a[:, :-1]
+    prev[1:, :] |= a[:-1, :]
+    if con8:
+        prev[1:, 1:] |= a[:-1, :-1]
+        prev[1:, :-1] |= a[:-1, 1:]
+    return a & ~prev
+
+
+def ncomponents(im, con8):
+    """component count by scipy.ndimage.label (independent of ImageD11; used for the vacuity counts only)"""
+    import scipy.ndimage
+    st = np.ones((3, 3), int) if con8 else np.array([[0, 1, 0], [1, 1, 1], [0, 1, 0]])
+    return int(scipy.ndimage.label(im, structure=st)[1])
+
+
+def growth_account(im, con8):
+    """{"new": number of dset_new calls, "growths": [{at, site, unions_after}]} from the image alone"""
+    pv = provisional(im, con8)
+    pos = np.flatnonzero(pv)
+    ns, nf = im.shape
+    acc = {"new": int(len(pos)), "growths": []}
+    if len(pos) < GROW1:
+        return acc
+    total_unions = len(pos) - ncomponents(im, con8)
+    for g in (GROW1, GROW2, 2 * GROW2 + 2, 4 * GROW2 + 6):
+        if len(pos) < g:
+            break
+        p = int(pos[g - 1])
+        pre = np.asarray(im, bool).copy().ravel()
+        pre[p + 1:] = False
+        before = g - ncomponents(pre.reshape(ns, nf), con8)
+        c = p % nf
+        site = "firstrow" if p < nf else "rowstart" if c == 0 else "rowend" if c == nf - 1 else "mid"
+        acc["growths"].append({"call": g, "site": site, "unions_after": int(total_unions - before)})
+    return acc
 
 
 def spiral(a, b):
@@ -199,67 +333,426 @@ def forest(above, labels, con8):
     return parent, depth
 
 
-def certificate_cases(chk, tier, mods):
-    """label big images with the real kernels, record certificates, validate with TLC (TraceCC)"""
-    cImageD11, labelimage, sparseframe = mods
-    rng = np.random.default_rng(common.seed() + 11)
-    recs = []
-    meta = {}
-    cid = 0
-    for name, im, con8 in big_images(tier, rng):
-        ns, nf = im.shape
+def fkey(a):
+    """order-preserving integer key of float32 values (TraceCC.tla header): x < y <=> fkey(x) < fkey(y), no NaN"""
+    a = np.ascontiguousarray(a, np.float32)
+    if np.isnan(a).any():
+        raise common.MachineryError("fkey: NaN has no key")
+    b = a.view(np.int32).astype(np.int64)
+    return np.where(b >= 0, b, -(b & 0x7fffffff))
+
+
+VCLASSES = ("mid", "ulp", "neg", "huge", "tiny")
+
+
+def values_for(im, vclass, rng):
+    """(threshold as the caller writes it [Python float], float32 image): above pixels of `im` get values strictly
+    above float32(threshold), the others values not above it; each pixel draws from its class's pool"""
+    im = np.asarray(im, bool)
+    if vclass == "mid":           # random values well away from an exact threshold, and the threshold itself
         thr = 5.0
-        data = np.where(im, 6.0 + rng.random(im.shape), 5.0 - (rng.random(im.shape) < 0.5)).astype(np.float32)
-        outs = []
+        return thr, np.where(im, 6.0 + rng.random(im.shape), 5.0 - (rng.random(im.shape) < 0.5)).astype(np.float32)
+    ninf, pinf = np.float32(-np.inf), np.float32(np.inf)
+    if vclass == "tiny":          # threshold 0: subnormals and signed zeros
+        thr = 0.0
+        lo = [0.0, -0.0, -1e-45, -1.0]
+        hi = [1e-45, 1e-40, 1.1754944e-38, 1.0]
+    else:
+        thr = {"ulp": 0.1, "neg": -1.0 / 3.0, "huge": 1e30}[vclass]
+        t32 = np.float32(thr)
+        dn, up = np.nextafter(t32, ninf), np.nextafter(t32, pinf)
+        lo = [t32, dn, np.nextafter(dn, ninf), np.float32(t32 - abs(t32) * np.float32(0.5))]
+        hi = [up, np.nextafter(up, pinf), np.float32(t32 + abs(t32) * np.float32(0.5)), np.float32(3e38)]
+        if vclass == "huge":
+            lo.append(ninf)
+            hi.append(pinf)
+    t32 = np.float32(thr)
+    lo, hi = np.array(lo, np.float32), np.array(hi, np.float32)
+    # the pools are classified here in exact arithmetic (float32 -> Python float is exact), not by the kernels
+    if not (all(float(x) <= float(t32) for x in lo) and all(float(x) > float(t32) for x in hi)):
+        raise common.MachineryError("values_for(%s): pool on the wrong side of the threshold" % vclass)
+    data = np.where(im, hi[rng.integers(0, len(hi), im.shape)], lo[rng.integers(0, len(lo), im.shape)])
+    return thr, data.astype(np.float32)
+
+
+def int_values_for(im, rng, dtype):
+    """integer image / threshold for integer-typed routes (labelpeaks input dtypes, scan files with integer intensity)"""
+    thr = 5
+    d = np.where(im, thr + 1 + rng.integers(0, 3, im.shape), thr - rng.integers(0, 2, im.shape))
+    return float(thr), d.astype(dtype)
+
+
+LI_OBJECTS = {}          # shape -> labelimage object, reused from image to image (stale labels of the previous one)
+
+
+class Vac(object):
+    """vacuity counters of the large-image families"""
+    def __init__(self):
+        self.c = collections.OrderedDict()
+
+    def add(self, fam, key=None, n=1):
+        if key is None:
+            self.c[fam] = self.c.get(fam, 0) + n
+        else:
+            d = self.c.setdefault(fam, collections.OrderedDict())
+            d[str(key)] = d.get(str(key), 0) + n
+
+
+def sparse_lists(listed):
+    ii, jj = np.nonzero(listed)
+    return ii.astype(np.uint16), jj.astype(np.uint16)
+
+
+def large_jobs(chk, tier, mods, rng, vac):
+    """label every big image with the three kernels (machine-default thread count) and, 8-connected, through the
+    Python wrappers; returns the jobs (inputs + outputs) for the sweeps and the certificates"""
+    cImageD11, labelimage, sparseframe = mods
+    jobs = []
+    zpads = [(0, 0), (3, 0), (0, 5), (2, 7)]
+    q = common.seed()                 # counts the 8-connected jobs: the call shapes of the wrappers rotate with it
+    for k, (name, im, con8) in enumerate(big_images(tier, rng)):
+        ns, nf = im.shape
+        big = name.startswith(("grow", "realloc"))
+        vclass = "mid" if (big and k % 2) else VCLASSES[(k + common.seed()) % len(VCLASSES)]
+        thr, data = values_for(im, vclass, rng)
+        info = {"big": name, "shape": [ns, nf], "con8": con8, "values": vclass, "threshold": thr, "seed": common.seed()}
+        job = {"name": name, "im": im, "con8": con8, "thr": thr, "data": data, "info": info, "outs": [], "vclass": vclass}
+        vac.add("value_class_images", vclass)
+        if vclass != "mid":
+            vac.add("inexact_or_extreme_threshold_kernel_calls")
         lab = np.full(im.shape, c11_replay.POISON, np.int32)
         n = cImageD11.connectedpixels(data, lab, thr, 0, con8)
-        outs.append(("connectedpixels", lab, n))
+        job["lab"], job["n"] = lab, int(n)
+        job["outs"].append(("connectedpixels", lab, n))
+        if big:
+            acc = growth_account(im, con8)
+            job["growth"] = acc
+            for g in acc["growths"]:
+                vac.add("growth_sites(dense)", "call %d at %s" % (g["call"], g["site"]))
         listed = im | (rng.random(im.shape) < 0.5)
         if con8 and listed.any():       # (the f2py wrapper does not accept zero-length lists: empty frames are None)
             # sparse routes on a list holding all above pixels and ~half of the others
-            ii, jj = np.nonzero(listed)
+            ii, jj = sparse_lists(listed)
             v = data[listed]
+            job["listed"] = listed
             ls = np.full(len(v), c11_replay.POISON, np.int32)
-            n2 = cImageD11.sparse_connectedpixels(v, ii.astype(np.uint16), jj.astype(np.uint16), thr, ls)
+            n2 = cImageD11.sparse_connectedpixels(v, ii, jj, thr, ls)
             d2 = np.zeros(im.shape, np.int32)
             d2[listed] = ls
-            outs.append(("sparse_connectedpixels", d2, n2))
-            ls3 = np.full(len(v), c11_replay.POISON, np.int32)
-            Z = np.full((ns + 2) * (nf + 2), c11_replay.POISON, np.int32)
-            n3 = cImageD11.sparse_connectedpixels_splat(v, ii.astype(np.uint16), jj.astype(np.uint16), thr, ls3, Z, ns, nf)
+            job["outs"].append(("sparse_connectedpixels", d2, n2))
+            q += 1
+            zp = zpads[(q // 3) % 4]
+            ls3, n3 = c11_replay.run_splat(cImageD11, v, ii, jj, thr, ns, nf, zp[0], zp[1])
+            vac.add("splat_scratch_padding", "%d+%d" % zp)
             d3 = np.zeros(im.shape, np.int32)
             d3[listed] = ls3
-            outs.append(("sparse_connectedpixels_splat", d3, n3))
+            job["outs"].append(("sparse_connectedpixels_splat(Z for %dx%d)" % (ns + zp[0], nf + zp[1]), d3, n3))
             # the three variants must induce the same labels (same numbering rule)
-            for nm, dd, nn in outs[1:]:
+            for nm, dd, nn in job["outs"][1:]:
                 if not np.array_equal(dd, lab) or nn != n:
-                    chk.violation("%s and connectedpixels disagree on image %s %dx%d" % (nm, name, ns, nf),
-                                  {"big": name, "shape": [ns, nf], "con8": con8, "seed": common.seed()})
+                    chk.violation("%s and connectedpixels disagree on image %s %dx%d" % (nm, name, ns, nf), info)
+            wrapper_routes(chk, mods, job, q, rng, vac)
+        jobs.append(job)
+    return jobs
+
+
+def wrapper_routes(chk, mods, job, k, rng, vac):
+    """labelimage.labelpeaks (input dtype / layout rotating) and sparseframe.sparse_connected_pixels (array names
+    rotating) on a large image; expectation: the connectedpixels array of the same image (validated by TraceCC)"""
+    cImageD11, labelimage, sparseframe = mods
+    im, lab, n, thr, data = job["im"], job["lab"], job["n"], job["thr"], job["data"]
+    ns, nf = im.shape
+    info = job["info"]
+    large = ns * nf >= 4096
+
+    def judge(route, got, ngot, exp):
+        chk.case(("wrapper", route, job["name"], ns, nf), nontrivial=(n >= 1))
+        what = None
+        if int(ngot) != n:
+            what = "returned count %d, connectedpixels %d" % (int(ngot), n)
+        elif got is None:
+            return                                   # (the missing array was reported by the route itself)
+        elif got.shape != exp.shape or not np.array_equal(got, exp):
+            what = "labels differ from connectedpixels' (first difference at %s)" % (
+                "?" if got.shape != exp.shape else str(np.argwhere(got != exp)[0].tolist()))
+        if what:
+            chk.violation("%s on image %s %dx%d (values %s, threshold %r): %s" % (
+                route, job["name"], ns, nf, job["vclass"], thr, what), dict(info, route=route))
+
+    for kind in (c11_replay.LI_KINDS[k % 8], c11_replay.LI_KINDS[(k + 3) % 8]):
+        try:
+            if kind in ("float32", "float64", "fortran", "strided"):
+                arr, t = c11_replay.li_input(kind, data, None, ns, nf, 0, thr)
+            else:
+                t, arr = int_values_for(im, rng, getattr(np, kind))
+            seen = (ns, nf) in LI_OBJECTS
+            blim, npk = c11_replay.run_labelpeaks(labelimage, arr, t, (ns, nf), reuse=LI_OBJECTS)
+            judge("labelimage.labelpeaks(%s input)" % kind, blim, npk, lab)
+            if seen:
+                vac.add("labelpeaks_on_a_reused_labelimage_object")
+        except Exception as e:
+            chk.violation("labelimage.labelpeaks(%s input) on image %s: exception %r" % (kind, job["name"], e), info)
+        vac.add("labelpeaks_dtype_images" + ("(>=64x64)" if large else "(small)"), kind)
+    listed = job["listed"]
+    ii, jj = sparse_lists(listed)
+    mode = k % 4
+    probs = []
+    try:
+        v = data[listed]
+        decoy = None
+        if mode >= 2 and k % 8 >= 4:
+            # as lima_segmenter.clean: "intensity" = the detector's integers (here: of the complementary image),
+            # "f32" = the float32 array that is labelled
+            decoy = int_values_for(~im, rng, np.uint16 if k % 16 >= 8 else np.uint32)[1][listed]
+        route, got, ngot = c11_replay.run_sparseframe(sparseframe, ii, jj, (ns, nf), v, thr, mode, probs, decoy)
+        judge(route, got, ngot, lab[listed])
+        for pr in probs:
+            chk.violation("%s on image %s %dx%d" % (pr, job["name"], ns, nf), info)
+    except Exception as e:
+        chk.violation("sparseframe.sparse_connected_pixels (mode %d) on image %s: exception %r" % (mode, job["name"], e), info)
+    vac.add("sparse_connected_pixels_images" + ("(>=64x64)" if large else "(small)"),
+            ["default names, meta threshold", "default names, explicit threshold", "f32/cp + decoy, meta threshold",
+             "f32/cp + decoy, explicit threshold"][mode])
+
+
+def thread_sweep(chk, mods, jobs, vac):
+    """cImageD11.connectedpixels (its relabel pass is an OpenMP loop over rows, connectedpixels.c:173) under explicit
+    thread counts; the labels must be those of the default-thread-count run (which TraceCC judges)"""
+    cImageD11 = mods[0]
+    before = cImageD11.cimaged11_omp_get_max_threads()
+    if before == 0:
+        chk.notes.setdefault("observations", []).append("cImageD11 built without OpenMP: no thread sweep")
+        return
+    try:
+        for t in THREADS:
+            cImageD11.cimaged11_omp_set_num_threads(t)
+            got = cImageD11.cimaged11_omp_get_max_threads()
+            if got != t:
+                vac.add("thread_sweep_not_applied", "%d (read back %d)" % (t, got))
+                continue
+            for job in jobs:
+                im = job["im"]
+                lab = np.full(im.shape, c11_replay.POISON, np.int32)
+                n = cImageD11.connectedpixels(job["data"], lab, job["thr"], 0, job["con8"])
+                chk.case(("threads", t, job["name"], im.shape, job["con8"]), nontrivial=(job["n"] >= 1))
+                vac.add("thread_sweep_calls", "%d threads" % t)
+                if t > im.shape[0]:
+                    vac.add("thread_sweep_calls", "more threads than rows")
+                if im.size >= 30000 and (job["lab"] != np.where(im, 1, 0)).any():
+                    vac.add("thread_sweep_calls", "large image with relabelled pixels")
+                if n != job["n"] or not np.array_equal(lab, job["lab"]):
+                    chk.violation("connectedpixels(con8=%d) with %d threads differs from the run with %d threads on image "
+                                  "%s %dx%d" % (job["con8"], t, before, job["name"], im.shape[0], im.shape[1]),
+                                  dict(job["info"], threads=t))
+                    break
+    finally:
+        cImageD11.cimaged11_omp_set_num_threads(before)
+    if cImageD11.cimaged11_omp_get_max_threads() != before:
+        raise common.MachineryError("thread count not restored")
+
+
+def scan_routes(chk, mods, jobs, vac):
+    """SparseScan.cplabel(threshold, countall) on scan files whose frames are the 8-connected certificate images of one
+    shape (plus an empty frame and an all-background frame); per frame the labels must be connectedpixels' labels of
+    that image (+ the running offset when countall), nlabels the counts, total_labels their sum"""
+    import h5py
+    from ImageD11 import sparseframe
+    rng = np.random.default_rng(common.seed() + 1111)
+    groups = collections.OrderedDict()
+    for job in jobs:
+        if job["con8"] and "listed" in job:
+            groups.setdefault(job["im"].shape, []).append(job)
+    fname = os.path.join(common.scratch(), "c11_scans.h5")
+    scans = []
+    with h5py.File(fname, "w") as h:
+        for gi, (shape, js) in enumerate(groups.items()):
+            if shape[0] * shape[1] < 64 * 64:
+                continue
+            js = sorted(js, key=lambda j: -j["n"])[:14]
+            if len(js) == 1:
+                js = js * 2                  # the same image twice (fresh values): the second frame's labels are offset
+            kind = ["float32", "uint16", "uint32", "ulp"][(gi + common.seed()) % 4]
+            rows, cols, vals, nnz, exp = [], [], [], [], []
+            frames = [None, "background"]
+            for j in js:
+                frames.insert(int(rng.integers(0, len(frames) + 1)), j)
+            for fr in frames:
+                if fr is None:
+                    nnz.append(0)
+                    exp.append((np.zeros(0, np.int32), 0))
+                    continue
+                if isinstance(fr, str):
+                    im = np.zeros(shape, bool)
+                    listed = rng.random(shape) < 0.3
+                    lab, n = np.zeros(shape, np.int32), 0
+                else:
+                    im, listed, lab, n = fr["im"], fr["listed"], fr["lab"], fr["n"]
+                if kind == "ulp":
+                    thr, d = values_for(im, "ulp", rng)
+                elif kind == "float32":
+                    thr, d = values_for(im, "mid", rng)
+                else:
+                    thr, d = int_values_for(im, rng, getattr(np, kind))
+                ii, jj = sparse_lists(listed)
+                rows.append(ii)
+                cols.append(jj)
+                vals.append(d[listed])
+                nnz.append(len(ii))
+                exp.append((lab[listed], n))
+            g = h.create_group("%d.1" % (gi + 1))
+            g.attrs["nframes"] = len(frames)
+            g.attrs["shape0"], g.attrs["shape1"] = shape
+            g.create_dataset("row", data=np.concatenate(rows))
+            g.create_dataset("col", data=np.concatenate(cols))
+            g.create_dataset("intensity", data=np.concatenate(vals))
+            g.create_dataset("nnz", data=np.array(nnz, np.uint32))
+            scans.append(("%d.1" % (gi + 1), shape, kind, thr, nnz, exp, np.concatenate(rows), np.concatenate(cols),
+                          np.concatenate(vals).astype(np.float32)))
+    for sname, shape, kind, thr, nnz, exp, row, col, val in scans:
+        info = {"big": "scan of %d frames %dx%d, intensity %s" % (len(nnz), shape[0], shape[1], kind),
+                "threshold": thr, "seed": common.seed()}
+        try:
+            with contextlib.redirect_stdout(io.StringIO()):
+                s = sparseframe.SparseScan(fname, sname)
+            loaded = (np.array_equal(s.row, row) and np.array_equal(s.col, col) and np.array_equal(s.nnz, nnz)
+                      and s.intensity.dtype == np.float32 and np.array_equal(s.intensity, val))
+        except Exception as e:
+            loaded = False
+            info["exception"] = repr(e)
+        if not loaded:
+            # loading a scan is X03's matter: without the scan as written nothing is attributed to the labelling
+            chk.notes.setdefault("observations", []).append("SparseScan did not load scan %s as written (%s): cplabel on "
+                                                             "it not judged" % (sname, info.get("exception", "arrays differ")))
+            continue
+        for countall in (True, False):
+            route = "SparseScan.cplabel(threshold=%r, countall=%s)" % (thr, countall)
+            try:
+                with contextlib.redirect_stdout(io.StringIO()):
+                    s.cplabel(threshold=thr, countall=countall)
+                want, nl = [], 0
+                for lab, n in exp:
+                    want.append(np.where(lab > 0, lab + nl, 0))
+                    if nl > GROW1 and n > 0:
+                        vac.add("cplabel_scans", "frame offset beyond 16384")
+                    if countall:
+                        nl += n
+                want = np.concatenate(want)
+                counts = np.array([n for _, n in exp])
+                what = None
+                if not np.array_equal(np.asarray(s.nlabels), counts):
+                    what = "nlabels differ from the per-frame component counts"
+                elif int(s.total_labels) != int(counts.sum()):
+                    what = "total_labels %d, sum of the counts %d" % (int(s.total_labels), int(counts.sum()))
+                elif np.asarray(s.labels).shape != want.shape or not np.array_equal(s.labels, want):
+                    bad = int(np.flatnonzero(np.asarray(s.labels) != want)[0]) if np.asarray(s.labels).shape == want.shape else -1
+                    what = "labels differ from connectedpixels' labels of the frames (first at list position %d, frame %d)" % (
+                        bad, int(np.searchsorted(np.cumsum(nnz), bad, side="right")))
+                elif "labels" not in s.names:
+                    what = "'labels' not added to the scan's names"
+                if what:
+                    chk.violation("%s on a %s: %s" % (route, info["big"], what), dict(info, route=route))
+            except Exception as e:
+                chk.violation("%s on a %s: exception %r" % (route, info["big"], e), dict(info, route=route))
+            chk.case(("scan", sname, shape, countall, kind), nontrivial=True)
+            chk.traces += 1
+            vac.add("cplabel_scans", "%dx%d %s countall=%s" % (shape[0], shape[1], kind, countall))
+            vac.add("cplabel_frames", None, len(nnz))
+
+
+def nan_observation(chk, mods):
+    """the statement is silent on NaN pixels: what the kernels do is written down, never judged"""
+    cImageD11 = mods[0]
+    try:
+        d = np.array([[np.nan, 0.0], [0.0, 0.0]], np.float32)
+        lab = np.full((2, 2), c11_replay.POISON, np.int32)
+        n1 = cImageD11.connectedpixels(d, lab, 0.5, 0, 1)
+        ii, jj = sparse_lists(np.ones((2, 2), bool))
+        ls = np.full(4, c11_replay.POISON, np.int32)
+        n2 = cImageD11.sparse_connectedpixels(d.ravel(), ii, jj, 0.5, ls)
+        ls3, n3 = c11_replay.run_splat(cImageD11, d.ravel(), ii, jj, 0.5, 2, 2)
+        chk.notes.setdefault("observations", []).append(
+            "NaN pixel (outside the statement: neither above nor not above): 2x2 image [[NaN,0],[0,0]], threshold 0.5 -> "
+            "connectedpixels n=%d labels %s (`>` is false: background); sparse_connectedpixels n=%d labels %s, splat n=%d "
+            "labels %s (`<=` is false: the NaN pixel is a peak): dense and sparse variants %s on NaN input" % (
+                n1, lab.ravel().tolist(), n2, ls.tolist(), n3, ls3.tolist(),
+                "DISAGREE" if (n1 != n2 or lab.ravel().tolist() != ls.tolist()) else "agree"))
+    except Exception as e:      # an observation never fails the check
+        chk.notes.setdefault("observations", []).append("NaN probe raised %r" % (e,))
+
+
+def certificate_cases(chk, tier, mods):
+    """label big images with the real kernels and wrappers, sweep threads, label scans; record the certificates of the
+    kernels' arrays for TLC (TraceCC)"""
+    rng = np.random.default_rng(common.seed() + 11)
+    vac = Vac()
+    jobs = large_jobs(chk, tier, mods, rng, vac)
+    thread_sweep(chk, mods, jobs, vac)
+    scan_routes(chk, mods, jobs, vac)
+    nan_observation(chk, mods)
+    recs = []
+    meta = {}
+    cid = 0
+    growth = []
+    for job in jobs:
+        im, con8 = job["im"], job["con8"]
+        ns, nf = im.shape
+        t32 = np.float32(job["thr"])
+        above = job["data"] > t32                    # for the recorder's forest only; TLC decides from the keys
+        vkey = fkey(job["data"]).ravel().tolist()
+        tkey = int(fkey(np.array([t32]))[0])
+        # arrays equal to an array that gets its own certificate need no second one (the equality was judged above);
+        # on images up to 64x64 every kernel's array is certified separately all the same
+        outs = job["outs"] if ns * nf <= 4096 else \
+            [o for q, o in enumerate(job["outs"]) if q == 0 or not np.array_equal(o[1], job["lab"]) or o[2] != job["n"]]
         for nm, dd, nn in outs:
-            par, dep = forest(im, dd, con8)
+            par, dep = forest(above, dd, con8)
             cid += 1
-            meta[cid] = (name, nm, ns, nf, con8)
-            recs.append({"id": cid, "ns": ns, "nf": nf, "con8": con8, "above": im.astype(int).ravel().tolist(),
+            meta[cid] = (job["name"], nm, ns, nf, con8)
+            recs.append({"id": cid, "ns": ns, "nf": nf, "con8": con8, "vkey": vkey, "tkey": tkey,
                          "labels": dd.ravel().tolist(), "n": int(nn),
                          "parent": par.ravel().tolist(), "depth": dep.ravel().tolist()})
+        if "growth" in job:
+            g = job["growth"]
+            routes = len(job["outs"])
+            growth.append({"image": job["name"], "con8": con8, "dset_new_calls": g["new"], "kernels": routes,
+                           "growths": g["growths"]})
+            for gg in g["growths"]:
+                if gg["unions_after"] > 0:
+                    vac.add("kernel_runs_with_unions_after_growth", "growth at call %d" % gg["call"], routes)
+    chk.notes["growth_images"] = growth
+    chk.notes["large_image_families"] = vac.c
+    need = [("kernel_runs_with_unions_after_growth", "growth at call %d" % GROW1),
+            ("kernel_runs_with_unions_after_growth", "growth at call %d" % GROW2),
+            ("thread_sweep_calls", "more threads than rows"), ("thread_sweep_calls", "large image with relabelled pixels"),
+            ("cplabel_scans", "frame offset beyond 16384")]
+    for fam, key in need:
+        if not vac.c.get(fam, {}).get(key):
+            if fam == "thread_sweep_calls" and "thread_sweep_calls" not in vac.c:
+                continue                              # no OpenMP / thread count not settable: noted, not a failure
+            raise common.MachineryError("vacuity: large-image family %s / %s was not exercised" % (fam, key))
     return recs, meta
 
 
-def validate_certificates(chk, recs, meta, tag="cert"):
+def run_tracecc(recs, tag):
     path = os.path.join(common.scratch(), "tracecc_%s.ndjson" % tag)
     with open(path, "w") as f:
         for r in recs:
             f.write(json.dumps(r) + "\n")
     cfg = common.write_cfg(os.path.join(common.scratch(), "tracecc.cfg"), invariants=["Verdict"])
     res = common.run_tlc("TraceCC", cfg, workers=1, timeout=3000, env_extra={"TRACE_FILE": path}, heap="10g")
-    chk.add_tlc("TraceCC %d certificates" % len(recs), res)
     verdicts = {}
     for line in res.printed:
         v = json.loads(line)
         verdicts[v["id"]] = v
-    if len(verdicts) != len(recs):
-        raise common.MachineryError("TraceCC returned %d verdicts for %d certificates\n%s" % (
-            len(verdicts), len(recs), res.stdout[-1500:]))
+    if res.error or len(verdicts) != len(recs):
+        raise common.MachineryError("TraceCC returned %d verdicts for %d certificates (%s)\n%s" % (
+            len(verdicts), len(recs), res.error, res.stdout[-1500:]))
+    return res, verdicts
+
+
+def validate_certificates(chk, recs, meta, tag="cert"):
+    res, verdicts = run_tracecc(recs, tag)
+    chk.add_tlc("TraceCC %d certificates" % len(recs), res)
     for r in recs:
         v = verdicts[r["id"]]
         name = meta.get(r["id"], ("?",) * 5)
@@ -268,8 +761,8 @@ def validate_certificates(chk, recs, meta, tag="cert"):
         if not v["ok"]:
             chk.violation("certificate rejected by TraceCC (%s) for %s on image %s %dx%d con8=%d" % (
                 v["why"], name[1], name[0], name[2], name[3], name[4]),
-                {"certificate": {k: r[k] for k in ("ns", "nf", "con8", "n")}, "image": name[0],
-                 "above": r["above"] if len(r["above"]) <= 4096 else "omitted", "seed": common.seed()})
+                {"certificate": {k: r[k] for k in ("ns", "nf", "con8", "n", "tkey")}, "image": name[0],
+                 "vkey": r["vkey"] if len(r["vkey"]) <= 4096 else "omitted", "seed": common.seed()})
     return verdicts
 
 
@@ -281,21 +774,34 @@ def run(tier, replay=None):
     chk.rule = ("TLC enumerates every binary image (dense) / every absent-listed-above image (sparse, splat) of the "
                 "configured shapes and both connectivities, runs the transcribed kernels and emits the exact labels; "
                 "each case is replayed through connectedpixels, labelimage.labelpeaks, sparse_connectedpixels, "
-                "sparse_connectedpixels_splat, sparseframe.sparse_connected_pixels on the normal and the ASan build; "
+                "sparse_connectedpixels_splat, sparseframe.sparse_connected_pixels on the normal and the ASan build, the "
+                "numbers (threshold, values, input dtype, array names, scratch size) rotating with the case index; large "
+                "images: one TraceCC certificate per kernel array, the other call shapes by equality with a certified array; "
                 "non-trivial = at least one above-threshold pixel; distinct = distinct (shape, connectivity, image, source)")
-    chk.assumptions = ["threshold comparison is exercised with values equal to, below and above the threshold only",
+    chk.assumptions = ["the threshold is the float32 number the kernels receive (their parameter type): a caller's 0.1 is "
+                       "float32(0.1), and a pixel equal to it is not strictly above; pixel values are float32 (integer and "
+                       "float64 inputs of labelpeaks hold values float32 represents exactly); no NaN pixels",
+                       "small cases: values equal to / one float32 below / 1 below the threshold and one float32 above / "
+                       "0.5 / 1 above it, 8 thresholds (4 not exact in float32); large cases add +-inf, subnormals, -0",
+                       "Python wrappers, thread counts, scratch padding and scan files on the large images are judged by "
+                       "equality with the connectedpixels array of the same image, which TraceCC certifies",
                        "model capacity CAP=4 stands for the code's 16384 (growth rule identical); real growth is "
                        "exercised by the large certificate cases",
                        "SparseScan.cplabel is bound through SparseScan.tla (synthetic HDF5 scan groups of 1-3 frames): "
-                       "labels, per-frame counts and total must equal the specification's"]
+                       "labels, per-frame counts and total must equal the specification's; and, by this check's own driver, "
+                       "on scan files of up to 16 frames made of the certificate images (64x64 .. 384x384 quick, 512x512 "
+                       "thorough; float32 / uint16 / uint32 intensity; caller's threshold; countall both ways)"]
     if replay:
         return run_replay(chk, mods, replay)
 
     dshapes = [(2, 2), (2, 3), (3, 2), (3, 3), (2, 5), (5, 2)] + ([(3, 4), (4, 3)] if tier == "quick" else [(3, 4), (4, 3), (4, 4)])
     # (shape, algorithms): the two 12-pixel shapes (531441 ternary images each) are split between the two kernels
     both = '{"sparse", "splat"}'
-    sshapes = [((2, 2), both), ((2, 3), both), ((3, 3), both)] + ([] if tier == "quick" else
-               [((2, 5), both), ((5, 2), both), ((3, 4), '{"sparse"}'), ((4, 3), '{"splat"}')])
+    sshapes = [((2, 2), both, (0, 0)), ((2, 3), both, (0, 0)), ((3, 3), both, (0, 0))] + ([] if tier == "quick" else
+               [((2, 5), both, (0, 0)), ((5, 2), both, (0, 0)), ((3, 4), '{"sparse"}', (0, 0)), ((4, 3), '{"splat"}', (0, 0))])
+    # the splat kernel with a scratch sized for a larger frame (ZPI extra rows, ZPJ extra columns)
+    sshapes += [((2, 2), '{"splat"}', (1, 2)), ((2, 3), '{"splat"}', (2, 1))] + (
+        [] if tier == "quick" else [((3, 2), '{"splat"}', (0, 3)), ((3, 3), '{"splat"}', (1, 1))])
     allcases = []
     for (ns, nf) in dshapes:
         res = common.run_tlc("ConnPix", dense_cfg(ns, nf), workers=16, timeout=3000, coverage=(tier != "quick" and ns * nf <= 9))
@@ -308,9 +814,19 @@ def run(tier, replay=None):
             raise common.MachineryError("ConnPix %dx%d: emitted %d cases (%d unparsable), expected %d" % (
                 ns, nf, len(cs), bad, 2 * 2 ** (ns * nf)))
         allcases += cs
-    for ((ns, nf), algs) in sshapes:
-        res = common.run_tlc("SparseCP", sparse_cfg(ns, nf, algs=algs), workers=16, timeout=3000)
-        chk.add_tlc("SparseCP %dx%d" % (ns, nf), res)
+    # the relabel pass as the OpenMP loop it is: rows in any order (the invariants at "done" hold for every schedule)
+    for (ns, nf) in ([(3, 3)] if tier == "quick" else [(3, 3), (2, 5), (5, 2), (4, 3)]):
+        res = common.run_tlc("ConnPix", dense_cfg(ns, nf, emit=False, rowpar=True), workers=16, timeout=3000,
+                             coverage=(tier != "quick" and ns * nf <= 9))
+        chk.add_tlc("ConnPix %dx%d relabel rows in any order" % (ns, nf), res,
+                    require_cover=(("RelabelRow",) if res.coverage else ()))
+        if res.violated:
+            handle_model_violation(chk, "ConnPix(ROWPAR)", res)
+        if res.states < 2 * 2 ** (ns * nf) * (ns * nf + 2 ** ns):
+            raise common.MachineryError("ConnPix %dx%d ROWPAR: %d states: the row orders were not explored" % (ns, nf, res.states))
+    for ((ns, nf), algs, zp) in sshapes:
+        res = common.run_tlc("SparseCP", sparse_cfg(ns, nf, algs=algs, zp=zp), workers=16, timeout=3000)
+        chk.add_tlc("SparseCP %dx%d%s" % (ns, nf, "" if zp == (0, 0) else " splat scratch for %dx%d" % (ns + zp[0], nf + zp[1])), res)
         if res.violated:
             handle_model_violation(chk, "SparseCP", res)
         cs, bad = cases_from_sparse(res)
@@ -365,7 +881,7 @@ def run_replay(chk, mods, path):
     case = obj["case"]
     chk.exhaustive = False
     if "tern" in case:
-        for idx in range(4):
+        for idx in range(c11_replay.NVARIANT):
             probs = c11_replay.run_case(case, mods, idx)
             chk.case((tuple(case["tern"]), idx))
             chk.traces += 1
@@ -395,3 +911,22 @@ def selftest(mods=None):
     bad = dict(case, labels_dense=[1, 0, 0, 2], np=2)
     if not c11_replay.run_case(bad, mods, 0):
         raise common.MachineryError("selftest: wrong expectation accepted")
+    # every rotation of thresholds / values / dtypes / array names accepts the right labels and rejects the wrong ones
+    for idx in range(c11_replay.NVARIANT):
+        if c11_replay.run_case(case, mods, idx) or not c11_replay.run_case(bad, mods, idx):
+            raise common.MachineryError("selftest: variant %d of the value / dtype rotation misjudges" % idx)
+    # TraceCC decides "strictly above" on the keys: a labelled pixel EQUAL to the float32 threshold is rejected (L1),
+    # so is an unlabelled pixel one float32 above it; the right labelling is accepted
+    t32 = np.float32(0.1)
+    vals = np.array([np.nextafter(t32, np.float32(1)), t32, np.nextafter(t32, np.float32(-1)), np.float32(0.2)], np.float32)
+    base = {"ns": 2, "nf": 2, "con8": 1, "vkey": fkey(vals).tolist(), "tkey": int(fkey(np.array([t32]))[0]), "n": 1}
+    recs = [dict(base, id=1, labels=[1, 0, 0, 1], parent=[-1, -1, -1, 0], depth=[0, 0, 0, 1]),
+            dict(base, id=2, labels=[1, 1, 0, 1], parent=[-1, 0, -1, 0], depth=[0, 1, 0, 1]),
+            dict(base, id=3, labels=[0, 0, 0, 1], parent=[-1, -1, -1, -1], depth=[0, 0, 0, 0]),
+            dict(base, id=4, con8=0, labels=[1, 0, 0, 1], parent=[-1, -1, -1, 0], depth=[0, 0, 0, 1])]
+    _, v = run_tracecc(recs, "selftest")
+    if [v[i]["ok"] for i in (1, 2, 3, 4)] != [True, False, False, False]:
+        raise common.MachineryError("selftest: TraceCC verdicts %r" % ([v[i] for i in (1, 2, 3, 4)],))
+    k = fkey(np.array([-np.inf, -1.0, -1e-45, -0.0, 0.0, 1e-45, 1.0, np.inf], np.float32))
+    if not (np.all(np.diff(k)[[0, 1, 2, 4, 5, 6]] > 0) and k[3] == k[4] and abs(int(k[0])) < 2 ** 31 and abs(int(k[-1])) < 2 ** 31):
+        raise common.MachineryError("selftest: fkey is not order preserving")
